@@ -229,9 +229,36 @@ def run(ctx):
     isld2 = lambda n: any(n is l.node for l in lds) or any(is_var_load(d)(n) for d in vdid)
     atom = atom_from([(isld2, IMAX)] + [(lambda n, w=w: n is w, 0) for w in wakes])
     hit = [s for s in incs if reach(f, [s.node], atom)]
-    o.check(not hit, "counter = INT_MAX: %d increment site(s) unreachable" % len(incs),
-            "`%s` is reachable with the counter at INT_MAX: the post wraps the value to INT_MIN and still reports success" % (hit[0].node.text[:80] if hit else ""),
-            site=hit[0].node if hit else None, construct="post at INT_MAX")
+    # a failed compare-exchange refreshes the expected value: the retry must pass the overflow test again before the next attempt
+    retry = None
+
+    def ovf_test(b, i):
+        ec = f.edge_cond(b, i)
+        if ec is None:
+            return False
+        leaf, pol = ec
+        if not any(isld2(m) for m in leaf.walk()):
+            return False
+        try:
+            from rules import truth_table
+            tt = truth_table(f, leaf, pol, [isld2], [[-1, 0, 1, IMAX - 1, IMAX]])
+        except Unevaluable:
+            return False
+        return bool(tt) and all(v[0] != IMAX for v in tt)
+    for s_ in incs:
+        if s_.aop == "cas" and not hit:
+            w = f.find_path(s_.node, lambda n, s_=s_: n is s_.node, edge_ok=lambda b, i: not ovf_test(b, i))
+            if w is not None:
+                retry = (s_, w)
+    if retry and not hit:
+        o.fail("after a failed compare-exchange (which refreshes the expected value) the retry reaches `%s` again without re-testing for INT_MAX: a poster that "
+               "saw INT_MAX-1, lost the race to another post and retries stores INT_MAX + 1" % retry[0].node.text[:60], site=retry[0].node, witness=retry[1],
+               construct="post retry at INT_MAX")
+        hit = None
+    if hit is not None:
+      o.check(not hit, "counter = INT_MAX: %d increment site(s) unreachable" % len(incs),
+              "`%s` is reachable with the counter at INT_MAX: the post wraps the value to INT_MIN and still reports success" % (hit[0].node.text[:80] if hit else ""),
+              site=hit[0].node if hit else None, construct="post at INT_MAX")
 
     o = ctx.ob("counter.writers", "", "`counter` is modified after init only by the atomic operations of wait / trywait / post",
                "a plain store forgets announced waiters or units")
